@@ -86,6 +86,14 @@ var constructs = []construct{
 	{Name: "index", Tmpl: "§0[§1]", Slots: []string{"[1, 2, 3]", "1"}},
 	{Name: "index-range", Tmpl: "§0[§1:§2]", Slots: []string{"[1, 2, 3]", "0", "2"}},
 	{Name: "kwarg-default", Tmpl: "{|a, k: §0| a}", Slots: []string{"1"}},
+	// duplicated names/keys: the later occurrence loses, but its expression is still evaluated
+	{Name: "call-duplicate-kwarg", Tmpl: "ff(§0, k: §1, k: §2, k: §3)", Slots: []string{"1", "2", "3", "4"}},
+	{Name: "propcall-duplicate-kwarg", Tmpl: "oo.m(§0, k: §1, k: §2)", Slots: []string{"1", "2", "3"}},
+	{Name: "obj-duplicate-name", Tmpl: "{a: §0, a: §1, b: §2, a: §3}", Slots: []string{"1", "2", "3", "4"}},
+	{Name: "map-duplicate-key", Tmpl: "%{1: §0, 1: §1, [2]: §2, [2]: §3}", Slots: []string{"1", "2", "3", "4"}},
+	{Name: "kwarg-default-duplicate", Tmpl: "{|a, k: §0, k: §1| a}", Slots: []string{"1", "2"}},
+	{Name: "obj-embed-duplicate", Tmpl: "{a: §0, **§1, **§2}", Slots: []string{"1", "{a: 2}", "{a: 3}"}},
+	{Name: "call-unpack-duplicate", Tmpl: "ff(k: §0, **§1, **§2)", Slots: []string{"1", "{k: 2}", "{k: 3, j: 4}"}},
 	{Name: "arr-nested-call", Tmpl: "[id(§0), id(id(§1))]", Slots: []string{"1", "2"}},
 	{Name: "guarded-return", Tmpl: "return §1 if §0", Slots: []string{"true", "1"}, Stmt: true, Fn: true},
 	{Name: "return", Tmpl: "return §0", Slots: []string{"1"}, Stmt: true, Fn: true},
